@@ -44,7 +44,7 @@ SCALAR_BLOCKS = [
     (("maybe", "opt_enum", None), ("nums", "list_int", None), ("f", "float", None), ("b", "bool", None), ("_p", "str", None)),
     (("o", "opt_int", None),),  # only Optional scalars
     (("seen", "opt_datetime", None), ("status", "opt_ext_enum", None), ("ratio", "opt_float", None)),  # only Optional non-int scalars
-    (("status", "ext_enum", None), ("ok", "opt_bool", None)),  # an enum defined in a module without mapped classes
+    (("state", "ext_enum", None), ("ok", "opt_bool", None)),  # an enum defined in a module without mapped classes
 ]
 
 
@@ -87,6 +87,12 @@ def cases(tier, seed):
                 out.append(((mi % 3 == 0, tuple(classes)), order, mi))
                 if ncls <= 2:
                     out.append(((mi % 3 == 0, tuple(classes)), tuple(reversed(order)), mi))
+    # determinism across processes: batches of models generated again in child processes with other hash seeds
+    plain = [c for c in out]
+    step = max(1, len(plain) // (48 if tier == "quick" else 400))
+    sample = plain[::step]
+    for b in range(0, len(sample), 12):
+        out.append(("determinism", tuple((c[0], c[1]) for c in sample[b:b + 12])))
     return out
 
 
@@ -110,10 +116,48 @@ def expected_members(cls, all_classes):
     return out
 
 
+def run_determinism(case):
+    """the same models generated in this process and in two child processes with different PYTHONHASHSEED"""
+    import json
+    res = CaseResult(evaluations=0)
+    batch = case[1]
+    here = []
+    for model, order in batch:
+        mod, cls_by_name, src = gen.load(model, prefix="vgen06d")
+        names = [c[0] for c in model[1]]
+        try:
+            text = ormgen.generate_orm_source([cls_by_name[names[i]] for i in order])
+        except Exception as e:
+            text = f"ERROR {type(e).__name__}: {e}"
+        here.append(text.replace(mod.__name__, "MODEL"))
+        ormgen.cleanup(None, mod)
+    verif = os.path.dirname(os.path.dirname(os.path.abspath(__file__)))
+    for hashseed in ("1", "987654"):
+        env = dict(os.environ, PYTHONHASHSEED=hashseed)
+        p = subprocess.run([sys.executable, os.path.join(verif, "checks", "c06_child.py"), verif], input=json.dumps(batch),
+                           capture_output=True, text=True, env=env, timeout=600)
+        if p.returncode != 0:
+            raise HarnessError(f"determinism child failed: {p.stderr[-500:]}")
+        there = json.loads(p.stdout)
+        for (model, order), a, b in zip(batch, here, there):
+            res.evaluations += 1
+            if a != b:
+                import difflib
+                d = [l for l in difflib.unified_diff(a.splitlines(), b.splitlines(), lineterm="", n=0)][:6]
+                res.failures.append(Failure("non-deterministic", f"model {[(c[0], c[1]) for c in model[1]]} order {order}: output "
+                                                                 f"differs under PYTHONHASHSEED={hashseed}: {d}"))
+    res.features = {"determinism-across-processes"}
+    res.nontrivial_key = case
+    res.outcome_key = ("determinism", len(batch))
+    return res
+
+
 def run_case(case):
     import sqlalchemy
     from sqlalchemy import inspect as sa_inspect
     from sqlalchemy.orm import configure_mappers
+    if case[0] == "determinism":
+        return run_determinism(case)
     model, order, mi = case
     res = CaseResult()
     label = f"model {[(c[0], c[1], [f for f in c[2]]) for c in model[1]]} order={order}"
@@ -234,7 +278,7 @@ def cluster_key(case, f):
 
 def finish(run):
     if run.exhaustive and not run.failures:
-        for k in ("self-reference", "inheritance", "with-black", "list_ref", "classes:3"):
+        for k in ("self-reference", "inheritance", "with-black", "list_ref", "classes:3", "determinism-across-processes"):
             if not run.features.get(k):
                 raise HarnessError("vacuous: " + k)
 
